@@ -41,30 +41,39 @@ A = {
     needs='a translatable entry whose translated value is the empty string',
     history='initially MISSED (no empty values in KV sequences). Fixed by: Put of "" in KvMC and the random driver'),
  'C11b-fromsessionkey-cut-anywhere': dict(
+    history='caught at once (C11_NoCrossList on fs listings; C10 DumpOnce)',
     what='db/db.go FromSessionKey: bytes.Cut finds the session id anywhere in the stored key, not only as its prefix',
     needs='Dump/DecodeKey with two sessions where one id occurs inside the other session\'s stored key'),
  'C12b-fs-put-unlinks-first': dict(
+    history='caught at once (kill before the create of the temp file: record MISSING, silent restart)',
     what='db/fs Put: removes the destination before the write-then-rename', needs='crash between unlink and rename of a session that already has a record'),
  'C13b-start-sets-multi-before-begin': dict(
+    history='caught at once (C13_EndedOnce on TLC behaviours with a begin fault)',
     what='db/postgres Start: sets multi before BeginTx, so a begin fault leaves the store in multi mode with no transaction',
     needs='driver fault on the BeginTx of Start, then further operations'),
  'C14b-disasm-load-size-16bit': dict(
+    history='caught at once (C14_Listing on TLC-enumerated instructions with 3- and 4-byte sizes)',
     what='vm/debug.go: the disassembler prints the LOAD size as uint16', needs='LOAD with size >= 65536, compared as disassembly text'),
  'C15b-parseall-drops-trailing-byte': dict(
+    history='caught at once (C15_NoSilentAccept on the TLC-enumerated 3-byte strings)',
     what='vm/debug.go ParseAll: stops when fewer than 2 bytes remain, silently accepting one trailing byte', needs='valid program + exactly one stray byte given to the disassembler'),
  'C16b-menu-down-inherits-opcode': dict(
+    history='caught at once (C16_Fidelity on TLC-enumerated batch suffixes)',
     what='asm/menu.go ToLines: a DOWN line after NEXT/PREVIOUS in the same batch inherits MNEXT/MPREV as its display opcode', needs='batch order NEXT/PREVIOUS before DOWN'),
  'C17b-setinput-records-before-check': dict(
+    history='caught at once (C17_AsIfNeverSent on paired runs with an over-long first input)',
     what='state/state.go SetInput: records the input before the length check; engine init then fails restoring the stale over-long input',
     needs='long-lived engine without persister, over-long FIRST input, then acceptable inputs'),
  'C18b-ctx-language-not-refreshed-in-run': dict(
+    history='caught at once (C18_ExecLookups on model histories of program lang)',
     what='vm/runner.go Run: the context language is not replaced when the context already carries one, so LOADs after a language switch in the same run use the old language',
     needs='session that already has a language, switch, and a language-dependent LOAD in the same run'),
  'C19b-fs-temp-name-per-process': dict(
     what='db/fs writeFileAtomic: temp file named by pid, shared by all handles of the process', needs='two sessions saving to the same directory with overlapping Puts'),
  'C20b-render-keeps-dirty-on-failure': dict(
     what='vm/runner.go Render: DIRTY is cleared only after a successful render; persisted DIRTY makes a blocked session render',
-    needs='abnormal termination whose own page fails to render, then further requests in persisted mode'),
+    needs='abnormal termination whose own page fails to render, then further requests in persisted mode',
+    history='initially MISSED although C20_Blocked fired: the matcher of KF-blocked-output-after-failed-terminating-request excused ANY blocked request that started with DIRTY set. Fixed by: the matcher now requires what the finding says - the request that terminated the session returned an error from Exec'),
 }
 for sid, a in A.items():
     mp = os.path.join(V, 'seeded', sid, 'meta.json')
